@@ -258,7 +258,10 @@ func (c rcCacheOf) settings(i int) {
 // parProgram is a generated parallel program (data).
 type parProgram struct {
 	Container string `json:"container"` // map | mapof | cache | cacheof
-	Profile   string `json:"profile"`   // write | read | range | settings | resize | janitor
+	Profile   string `json:"profile"`   // write | read | range | settings | resize | janitor | bigtable | shrinkedge
+	Fill      int    `json:"fill,omitempty"`   // shrinkedge: keys stored and removed again before the goroutines start
+	Rounds    int    `json:"rounds,omitempty"` // shrinkedge: fresh containers per program
+	Extra     int    `json:"extra,omitempty"`  // shrinkedge: keys that stay put next to the toggled ones
 	G         int    `json:"goroutines"`
 	Ops       int    `json:"ops_per_goroutine"`
 	Keys      int    `json:"key_range"`
@@ -268,7 +271,7 @@ type parProgram struct {
 var parGen = rapid.Custom(func(t *rapid.T) parProgram {
 	p := parProgram{}
 	p.Container = []string{"map", "mapof", "cache", "cacheof"}[uniform(t, 4, "container")]
-	p.Profile = []string{"write", "read", "range", "settings", "resize", "janitor", "bigtable"}[uniform(t, 7, "profile")]
+	p.Profile = []string{"write", "read", "range", "settings", "resize", "janitor", "bigtable", "shrinkedge"}[uniform(t, 8, "profile")]
 	p.G = []int{2, 3, 4, 8, 16, 32, 64}[uniform(t, 7, "goroutines")]
 	p.Ops = []int{50, 200, 600, 2000}[uniform(t, 4, "ops")]
 	if p.G >= 32 && p.Ops > 600 {
@@ -283,6 +286,16 @@ var parGen = rapid.Custom(func(t *rapid.T) parProgram {
 		p.Keys = []int{12000, 30000}[uniform(t, 2, "bigKeys")]
 		p.G = []int{2, 4, 8}[uniform(t, 3, "bigG")]
 		p.Ops = 24000 / p.G
+	}
+	if p.Profile == "shrinkedge" {
+		// a table that grew and was drained again, with a handful of keys toggled around the shrink threshold:
+		// the resize entry/exit paths that "change their mind" are only taken here
+		p.Fill = []int{200, 600, 2500}[uniform(t, 3, "fill")]
+		p.Keys = []int{3, 4, 6}[uniform(t, 3, "edgeKeys")]
+		p.Extra = []int{0, 1, 2, 4, 8, 16}[uniform(t, 6, "edgeExtra")]
+		p.G = []int{3, 4, 6}[uniform(t, 3, "edgeG")]
+		p.Ops = []int{100, 200}[uniform(t, 2, "edgeOps")]
+		p.Rounds = 16
 	}
 	p.Seed = rapid.Uint64().Draw(t, "seed")
 	return p
@@ -336,12 +349,44 @@ var profW = map[string][12]int{
 	"resize":   {34, 6, 30, 4, 2, 2, 6, 4, 2, 4, 2, 1},
 	"janitor":  {30, 20, 4, 8, 6, 6, 8, 4, 4, 1, 4, 5},
 	"bigtable": {60, 10, 6, 6, 4, 4, 6, 2, 0, 0, 2, 0},
+	"shrinkedge": {40, 4, 36, 2, 2, 2, 6, 6, 0, 0, 2, 0},
 }
 
 // runPar executes the program natively; returns an error text on a payload integrity failure.
 func runPar(p parProgram) (string, map[string]int64) {
+	rounds := 1
+	if p.Profile == "shrinkedge" && p.Rounds > 1 {
+		rounds = p.Rounds
+	}
+	total := map[string]int64{}
+	for r := 0; r < rounds; r++ {
+		q := p
+		q.Seed += uint64(r) * 0x9e3779b9
+		e, cm := runParRound(q)
+		for k, v := range cm {
+			total[k] += v
+		}
+		if e != "" {
+			return e, total
+		}
+	}
+	return "", total
+}
+
+func runParRound(p parProgram) (string, map[string]int64) {
 	var evs int64
 	c := buildRC(p, &evs)
+	if p.Profile == "shrinkedge" {
+		// grow, then drain down to the toggled keys plus a few that stay: the table keeps the length whose shrink
+		// threshold lies inside the range the entry count will now move in
+		n := p.Fill + p.Keys + p.Extra
+		for i := 0; i < n; i++ {
+			c.set(i, newPayload(uint64(i)), cache.NoExpiration)
+		}
+		for i := n - 1; i >= p.Keys+p.Extra; i-- {
+			c.del(i)
+		}
+	}
 	var wg sync.WaitGroup
 	var bad atomic.Value
 	counts := make([]int64, 12)
@@ -379,6 +424,9 @@ func runPar(p parProgram) (string, map[string]int64) {
 				}
 				k := int(r.next() % uint64(p.Keys))
 				d := ttls[r.next()%uint64(len(ttls))]
+				if p.Profile == "shrinkedge" {
+					d = cache.NoExpiration
+				}
 				atomic.AddInt64(&counts[op], 1)
 				switch op {
 				case 0:
